@@ -79,7 +79,7 @@ class FunctionContract:
 
     def __init__(self, name, target, params, requires=None, refines=None, ensures=(), raises=(),
                  property_id=None, setup=None, loops=None, inline=(), arithmetic=False, notes="",
-                 kwargs_params=(), assume=None):
+                 kwargs_params=(), assume=None, old=None):
         self.name = name
         self.target = target
         self.params = list(params)
@@ -95,6 +95,7 @@ class FunctionContract:
         self.notes = notes
         self.kwargs_params = kwargs_params
         self.assume = assume or {}
+        self.old = old
 
 
 # ----------------------------------------------------------------------------- structural helpers
@@ -207,3 +208,11 @@ def for_each(seq, f):
     for c in seq:
         f(c)
     return None
+
+
+def union_all(sets):
+    """Union of an iterable of sets."""
+    out = set()
+    for x in sets:
+        out = out | x
+    return out
